@@ -1,8 +1,10 @@
 #!/bin/bash
+# usage: ./seeds_all.sh [seeded/<name> ...]   (default: all)
 # apply every kept seeded change to /repo in turn, run the check of the property it breaks (quick), undo; one line per seed.
 cd "$(dirname "$0")"
 git -C /repo status --short | grep -q . && { echo "/repo is not clean"; exit 2; }
-for d in seeded/*/; do
+for d in ${@:-seeded/*/}; do
+  d=${d%/}/
   name=$(basename $d); pid=$(python3 -c "import json; print(json.load(open('$d/meta.json'))['breaks_property'])")
   git -C /repo apply /verif/$d/patch.diff || { echo "$name DOES-NOT-APPLY"; continue; }
   out=$(./check.sh $pid quick 2>&1); rc=$?
